@@ -325,7 +325,11 @@ def expand(job):
                 case["pf"] = {"kind": "iso", "g": fg, "fmt": dtxt + "T" + ttxt + ztxt, "lz": lz}
             elif y < 0.42:
                 # a date-only print format, complete or reduced (year-month, year, year-week ...), in any representation
-                fg = pick_g(rnd, m, [f_ for f_ in forms if f_["wf"] and f_["tform"] == "none" and f_["dform"] != "c"])
+                # (a bare CCYY names the calendar year for calendar/ordinal input; for a week-date input it could as well be the
+                #  week-numbering year, which is what the dumper prints - no statement settles that, so it is not generated)
+                week_in = case["g"]["dform"] in ("week-b", "week-e", "yw-b", "yw-e")
+                fg = pick_g(rnd, m, [f_ for f_ in forms if f_["wf"] and f_["tform"] == "none" and f_["dform"] != "c"
+                                     and not (week_in and f_["dform"] == "y")])
                 fg["ds"] = []
                 dtxt = {"cal-b": "CCYYMMDD", "cal-e": "CCYY-MM-DD", "ord-b": "CCYYDDD", "ord-e": "CCYY-DDD", "week-b": "CCYYWwwD", "week-e": "CCYY-Www-D",
                         "ym": "CCYY-MM", "y": "CCYY", "yw-b": "CCYYWww", "yw-e": "CCYY-Www"}[fg["dform"]]
@@ -349,6 +353,10 @@ def expand(job):
             case = dict(base, kind="diff", g=pick_g(rnd, m, forms), g2=pick_g(rnd, m, forms),
                         offs=[dict(rnd.choice(OFFS)) for _ in range(rnd.choice([0, 0, 1]))],
                         offs2=[dict(rnd.choice(OFFS)) for _ in range(rnd.choice([0, 0, 1]))], total=rnd.choice([None, None, "s", "M", "h", "H"]))
+            if rnd.random() < 0.2:
+                # the SAME offsets on both sides: they do not cancel when they are months or years (clamping at month ends)
+                same = [dict(rnd.choice([{"mo": 1}, {"mo": -1}, {"y": 1}, {"y": -4}, {"mo": 13}, {"d": 1}, {"h": 6}])) for _ in range(rnd.choice([1, 1, 2]))]
+                case["offs"], case["offs2"] = same, [dict(o_) for o_ in same]
             if case["total"] is None and rnd.random() < 0.3 and not any(isinstance(v_, float) for o_ in case["offs"] + case["offs2"] for v_ in o_.values()):
                 letters = rnd.choice(["dhMs", "ymdhMs", "d", "hM", "s", "dh"])
                 toks = []
